@@ -1439,11 +1439,35 @@ Definition dollar_shape (cont : nat) (pdata rest : string) (out : list string) :
     List.app (List.concat (map words dl)) (words p) = words pdata /\
     u0 ++ String.concat "" bs = rest.
 
+(* a plain line: its only whitespace characters are blanks (no tab, CR, LF, VT, FF, FS..US, NEL, NBSP) *)
+Definition plain_char (a : ascii) : bool := orb (negb (is_pyspace a)) (is_blank a).
+Fixpoint plain_text (s : string) : bool :=
+  match s with
+  | EmptyString => true
+  | String a r => andb (plain_char a) (plain_text r)
+  end.
+
+Lemma plain_pyspace_blank : forall s, plain_text s = true -> all_pyspace s = true -> all_kind true s = true.
+Proof.
+  induction s as [|a s IH]; intros Hp Hs; [reflexivity|]. simpl in *.
+  apply andb_true_iff in Hp. destruct Hp as [Ha Hp]. apply andb_true_iff in Hs. destruct Hs as [Hsa Hs].
+  unfold plain_char in Ha. rewrite Hsa in Ha. simpl in Ha. rewrite Ha, (IH Hp Hs). reflexivity.
+Qed.
+
+Lemma plain_text_before_dollar : forall s, plain_text s = true -> plain_text (before_dollar s) = true.
+Proof.
+  induction s as [|a s IH]; intros H; [reflexivity|]. simpl in *.
+  apply andb_true_iff in H. destruct H as [Ha Hs]. destruct (Ascii.eqb a dollar); [reflexivity|].
+  simpl. rewrite Ha, (IH Hs). reflexivity.
+Qed.
+
 Lemma wrap_line_shape : forall W cont (first : bool) line out,
-  5 <= cont -> cont + 2 < W -> 11 < W ->
-  is_comment line = mcnp_comment_line ((if first then "" else blanks cont) ++ line) ->
-  (is_comment line = false -> Forall (fun c => slen c <= W - cont) (split_ws (before_dollar line))) ->
-  wrap_line W (if first then "" else blanks cont) (blanks cont) (plain_line line) = WOk out ->
+  5 <= cont -> cont + 2 < W -> 11 < W -> plain_text line = true ->
+  comment_branch cont ((if first then "" else blanks cont) ++ line) =
+    mcnp_comment_line ((if first then "" else blanks cont) ++ line) ->
+  (mcnp_comment_line ((if first then "" else blanks cont) ++ line) = false ->
+   Forall (fun c => slen c <= W - cont) (split_ws (before_dollar line))) ->
+  wrap_line_chunks W cont (if first then "" else blanks cont) (blanks cont) (plain_line line) = WOk out ->
   let ii := if first then "" else blanks cont in
   out = [ii ++ line] \/
   (line = "" /\ out = []) \/
@@ -1456,12 +1480,12 @@ Lemma wrap_line_shape : forall W cont (first : bool) line out,
    exists rest, line = before_dollar line ++ String dollar rest /\
                 dollar_shape cont (ii ++ before_dollar line) rest out).
 Proof.
-  intros W cont first line out Hc HW HW12 Hcls Hfit H ii.
+  intros W cont first line out Hc HW HW12 Hplain Hcls Hfit H ii.
   assert (HcW : cont < W) by lia.
   assert (Hii : ii = "" \/ ii = blanks cont) by (unfold ii; destruct first; auto).
-  fold ii in H, Hcls.
+  fold ii in H, Hcls, Hfit.
   assert (Hiib : all_kind true ii = true) by (destruct Hii as [-> | ->]; [reflexivity | apply all_kind_blanks]).
-  unfold wrap_line in H. cbn [l_text l_chunks l_data_chunks l_comment_chunks plain_line] in H.
+  unfold wrap_line_chunks in H. cbn [l_text l_chunks l_data_chunks l_comment_chunks plain_line] in H.
   destruct (split_ws_spec line) as (b & _ & Hcat).
   destruct (Nat.leb (slen ii + slen line) W) eqn:Efit.
   { (* the line fits *)
@@ -1473,7 +1497,7 @@ Proof.
       + apply split_ws_nonnil. rewrite El. discriminate.
       + apply split_ws_chunks_nonempty.
       + rewrite Hcat. exact Efit. }
-  destruct (is_comment line) eqn:Ecom.
+  destruct (comment_branch cont (ii ++ line)) eqn:Ecom.
   { (* a comment line *)
     right. right. right. left.
     assert (Hi : ii = "").
@@ -1483,8 +1507,8 @@ Proof.
     destruct (wrap_chunks W "" comment_si (split_ws line)) as [ls|] eqn:R; [|discriminate H].
     apply WOk_inj in H. subst out.
     apply (wrap_comment_line_lines W comment_si line ls); [lia | auto | exact R]. }
-  specialize (Hfit eq_refl).
   assert (Hncl : mcnp_comment_line (ii ++ line) = false) by (rewrite <- Hcls; reflexivity).
+  specialize (Hfit Hncl).
   destruct (has_char dollar line) eqn:Ed; cbn [negb] in H.
   2:{ (* no '$' *)
     right. right. left. split; [reflexivity|]. split; [exact Hncl|].
@@ -1503,19 +1527,31 @@ Proof.
   right. right. right. right. split; [exact Hncl|].
   destruct (split_dollar_spec line) as (Hsplit & Hbd & Hfd). destruct (Hfd Ed) as [rest Hrest].
   exists rest. split; [rewrite <- Hrest; exact Hsplit|].
+  pose proof (plain_text_before_dollar line Hplain) as Hpd.
   remember (before_dollar line) as data eqn:Hdata. rewrite Hrest in *.
   assert (Hline : ii ++ line = ii ++ data ++ String dollar rest) by (rewrite Hsplit at 1; reflexivity).
   assert (Hsi_d : has_char dollar (blanks cont) = false) by apply has_char_blanks.
   assert (Hiid : has_char dollar ii = false) by (destruct Hii as [-> | ->]; [reflexivity | apply has_char_blanks]).
   destruct (all_pyspace data) eqn:Eb; cbn [negb] in H.
   { (* only blanks before the '$' *)
-    destruct (wrap_chunks W (ii ++ data) (dollar_si (blanks cont)) (split_ws (String dollar rest))) as [ls|] eqn:R;
-      [|discriminate H].
-    apply WOk_inj in H. subst out. apply wrap_comment_lines in R. destruct R as (u0 & bs & -> & Hu).
-    exists [], (ii ++ data), u0, bs. split; [reflexivity|]. split; [constructor|].
-    split; [rewrite has_char_app, Hiid, Hbd; reflexivity|]. split; [|split; [reflexivity | exact Hu]].
-    unfold mcnp_comment_line in *. rewrite (cline_dollar_irrelevant 4 (ii ++ data) u0 rest).
-    rewrite app_assoc_s, <- Hline. exact Hncl. }
+    destruct (Nat.leb (Nat.div W 2) (slen (ii ++ data))).
+    - (* half the width or more: the comment starts on an ordinary continuation line *)
+      destruct (wrap_chunks W (blanks cont) (dollar_si (blanks cont)) (split_ws (String dollar rest))) as [ls|] eqn:R;
+        [|discriminate H].
+      apply WOk_inj in H. subst out. apply wrap_comment_lines in R. destruct R as (u0 & bs & -> & Hu).
+      exists [], (blanks cont), u0, bs. split; [reflexivity|]. split; [constructor|].
+      split; [exact Hsi_d|]. split; [eapply cline_cont_prefix; [exact Hc | apply prefix_app]|].
+      split; [|exact Hu]. cbn [map List.concat List.app].
+      rewrite (words_blank_only (blanks cont)) by apply all_kind_blanks.
+      rewrite (words_blank_app ii data Hiib). symmetry. apply words_blank_only.
+      apply plain_pyspace_blank; assumption.
+    - destruct (wrap_chunks W (ii ++ data) (dollar_si (blanks cont)) (split_ws (String dollar rest))) as [ls|] eqn:R;
+        [|discriminate H].
+      apply WOk_inj in H. subst out. apply wrap_comment_lines in R. destruct R as (u0 & bs & -> & Hu).
+      exists [], (ii ++ data), u0, bs. split; [reflexivity|]. split; [constructor|].
+      split; [rewrite has_char_app, Hiid, Hbd; reflexivity|]. split; [|split; [reflexivity | exact Hu]].
+      unfold mcnp_comment_line in *. rewrite (cline_dollar_irrelevant 4 (ii ++ data) u0 rest).
+      rewrite app_assoc_s, <- Hline. exact Hncl. }
   destruct (wrap_chunks W ii (blanks cont) (split_ws data)) as [ret|] eqn:R; [|discriminate H].
   assert (Hcl' : mcnp_comment_line (ii ++ data ++ String dollar rest) = false) by (rewrite <- Hline; exact Hncl).
   destruct (wrap_data_lines_ok _ _ _ _ _ _ Hc HcW Hii Hbd Hfit Hcl' R) as (Hw & Hnd & Hsh).
@@ -1641,16 +1677,18 @@ Proof.
   - destruct (is_blank a); [apply IH; exact H | discriminate].
 Qed.
 
-Theorem wrap_line_meaning : forall W cont (first : bool) line out,
-  5 <= cont -> cont + 2 < W -> 11 < W ->
-  is_comment line = mcnp_comment_line ((if first then "" else blanks cont) ++ line) ->
-  (is_comment line = false -> Forall (fun c => slen c <= W - cont) (split_ws (before_dollar line))) ->
-  wrap_line W (if first then "" else blanks cont) (blanks cont) (plain_line line) = WOk out ->
+Theorem wrap_line_chunks_meaning : forall W cont (first : bool) line out,
+  5 <= cont -> cont + 2 < W -> 11 < W -> plain_text line = true ->
+  comment_branch cont ((if first then "" else blanks cont) ++ line) =
+    mcnp_comment_line ((if first then "" else blanks cont) ++ line) ->
+  (mcnp_comment_line ((if first then "" else blanks cont) ++ line) = false ->
+   Forall (fun c => slen c <= W - cont) (split_ws (before_dollar line))) ->
+  wrap_line_chunks W cont (if first then "" else blanks cont) (blanks cont) (plain_line line) = WOk out ->
   data_tokens out = data_tokens [(if first then "" else blanks cont) ++ line] /\
   noblank (comment_text out) = noblank (comment_text [(if first then "" else blanks cont) ++ line]).
 Proof.
-  intros W cont first line out Hc HW HW12 Hcls Hfit H.
-  pose proof (wrap_line_shape W cont first line out Hc HW HW12 Hcls Hfit H) as S. cbn zeta in S.
+  intros W cont first line out Hc HW HW12 Hplain Hcls Hfit H.
+  pose proof (wrap_line_shape W cont first line out Hc HW HW12 Hplain Hcls Hfit H) as S. cbn zeta in S.
   set (ii := if first then "" else blanks cont) in *.
   assert (Hii : ii = "" \/ ii = blanks cont) by (unfold ii; destruct first; auto).
   assert (Hiib : all_kind true ii = true) by (destruct Hii as [-> | ->]; [reflexivity | apply all_kind_blanks]).
@@ -1695,57 +1733,140 @@ Proof.
     rewrite app_nil_r. split; reflexivity.
 Qed.
 
-(* ... and the three ways in which it does when a hypothesis is dropped (each replayed on the real code) *)
-(* (a) is_comment and MCNP disagree: a continuation line whose first word is "c" *)
-Lemma wrap_line_meaning_refuted_c_beyond_column_5 :
+(* ---- from the raw line: a plain line is its own tab expansion and its chunks are its blank-separated runs ---- *)
+Lemma plain_char_spec : forall a, plain_char a = true ->
+  Ascii.eqb a tab_char = false /\ Ascii.eqb a nl_char = false /\ Ascii.eqb a cr_char = false /\
+  (if is_munged_ws a then " "%char else a) = a /\ (is_pyspace a = true -> is_blank a = true).
+Proof.
+  intros [[] [] [] [] [] [] [] []]; vm_compute; intros H;
+    first [discriminate H | repeat split; first [reflexivity | intros; assumption | intros; discriminate]].
+Qed.
+
+Lemma expandtabs_aux_plain : forall s col, plain_text s = true -> expandtabs_aux s col = s.
+Proof.
+  induction s as [|a s IH]; intros col H; [reflexivity|]. simpl in H.
+  apply andb_true_iff in H. destruct H as [Ha Hs].
+  destruct (plain_char_spec a Ha) as (E1 & E2 & E3 & _). cbn [expandtabs_aux].
+  rewrite E1, E2, E3. cbn [orb]. rewrite IH by exact Hs. reflexivity.
+Qed.
+
+Lemma translate_ws_plain : forall s, plain_text s = true -> translate_ws s = s.
+Proof.
+  induction s as [|a s IH]; intros H; [reflexivity|]. simpl in H.
+  apply andb_true_iff in H. destruct H as [Ha Hs].
+  destruct (plain_char_spec a Ha) as (_ & _ & _ & E & _). cbn [translate_ws]. rewrite E, IH by exact Hs. reflexivity.
+Qed.
+
+Lemma munge_plain : forall s, plain_text s = true -> munge s = s.
+Proof.
+  intros s H. unfold munge, expandtabs. rewrite expandtabs_aux_plain by exact H. apply translate_ws_plain. exact H.
+Qed.
+
+Lemma plain_text_from_dollar : forall s, plain_text s = true -> plain_text (from_dollar s) = true.
+Proof.
+  induction s as [|a s IH]; intros H; [reflexivity|]. pose proof H as H'. simpl in H.
+  apply andb_true_iff in H. destruct H as [Ha Hs]. cbn [from_dollar].
+  destruct (Ascii.eqb a dollar); [exact H' | exact (IH Hs)].
+Qed.
+
+Lemma wrap_line_plain : forall W cont ii si line,
+  plain_text line = true -> wrap_line W cont ii si line = wrap_line_chunks W cont ii si (plain_line line).
+Proof.
+  intros W cont ii si line H. unfold wrap_line, expandtabs, plain_line, chunks_of.
+  rewrite (expandtabs_aux_plain line 0 H).
+  rewrite (munge_plain line H), (munge_plain _ (plain_text_before_dollar line H)),
+          (munge_plain _ (plain_text_from_dollar line H)).
+  reflexivity.
+Qed.
+
+(* ---- MontePy's test for a comment line (is_comment and a non-blank in the first five columns) is MCNP's rule
+        on every plain line of seven or more characters ---- *)
+Lemma plain_has_no_newline : forall s, plain_text s = true -> has_char nl_char s = false.
+Proof.
+  induction s as [|a s IH]; intros H; [reflexivity|]. simpl in H.
+  apply andb_true_iff in H. destruct H as [Ha Hs].
+  destruct (plain_char_spec a Ha) as (_ & E & _). cbn [has_char]. rewrite E, (IH Hs). reflexivity.
+Qed.
+
+Lemma is_c_not_pyspace : forall a, is_c a = true -> is_pyspace a = false.
+Proof.
+  intros a H. unfold is_c in H. apply orb_true_iff in H.
+  destruct H as [H|H]; apply Ascii.eqb_eq in H; subst a; reflexivity.
+Qed.
+
+Lemma comment_test_agrees_aux : forall k w, plain_text w = true -> k + 3 <= slen w ->
+  andb (starts_c_blank (lstrip_py w)) (negb (all_pyspace (take (S k) w))) = cline_aux k w.
+Proof.
+  induction k as [|k IH]; intros w Hp Hl; (destruct w as [|a r]; [unfold slen in Hl; simpl in Hl; lia|]);
+    simpl in Hp; apply andb_true_iff in Hp; destruct Hp as [Ha Hr];
+    destruct (plain_char_spec a Ha) as (_ & _ & _ & _ & Hpb);
+    cbn [cline_aux lstrip_py take all_pyspace]; destruct (is_c a) eqn:Ec.
+  - rewrite (is_c_not_pyspace a Ec). cbn [andb negb]. rewrite andb_true_r.
+    destruct r as [|b r']; [unfold slen in Hl; simpl in Hl; lia|]. cbn [starts_c_blank]. rewrite Ec. reflexivity.
+  - destruct (is_blank a) eqn:Eb.
+    + apply is_blank_eq in Eb. subst a. change (is_pyspace " "%char) with true. cbn [andb all_pyspace negb].
+      apply andb_false_r.
+    + destruct (is_pyspace a) eqn:Es; [discriminate (Hpb eq_refl)|].
+      cbn [andb negb]. destruct r as [|b r']; cbn [starts_c_blank]; rewrite ?Ec; reflexivity.
+  - rewrite (is_c_not_pyspace a Ec). cbn [andb negb]. rewrite andb_true_r.
+    destruct r as [|b r']; [unfold slen in Hl; simpl in Hl; lia|]. cbn [starts_c_blank]. rewrite Ec. reflexivity.
+  - destruct (is_blank a) eqn:Eb.
+    + apply is_blank_eq in Eb. subst a. change (is_pyspace " "%char) with true. cbn [andb].
+      apply IH; [exact Hr | unfold slen in *; simpl in Hl; lia].
+    + destruct (is_pyspace a) eqn:Es; [discriminate (Hpb eq_refl)|].
+      cbn [andb negb]. destruct r as [|b r']; cbn [starts_c_blank]; rewrite ?Ec; reflexivity.
+Qed.
+
+Lemma comment_test_agrees : forall w, plain_text w = true -> 7 <= slen w ->
+  comment_branch 5 w = mcnp_comment_line w.
+Proof.
+  intros w Hp Hl. unfold comment_branch, mcnp_comment_line.
+  rewrite <- (comment_test_agrees_aux 4 w Hp ltac:(lia)). f_equal.
+  unfold is_comment. rewrite (plain_has_no_newline w Hp).
+  destruct w as [|a0 [|a1 [|a2 [|a3 [|a4 [|a5 [|a6 w']]]]]]]; try (unfold slen in Hl; simpl in Hl; lia).
+  cbn [take String.eqb negb andb].
+  remember (String a0 (String a1 (String a2 (String a3 (String a4 (String a5 (String a6 w'))))))) as w.
+  cbn [is_single_c]. destruct (starts_c_blank (lstrip_py w)); reflexivity.
+Qed.
+
+(* ---- wrap_string_for_mcnp's call of _wrap_line, from the raw line, with MontePy's constants ---- *)
+Theorem wrap_line_meaning : forall W (first : bool) line out,
+  11 < W -> plain_text line = true ->
+  (mcnp_comment_line ((if first then "" else blanks 5) ++ line) = false ->
+   Forall (fun c => slen c <= W - 5) (split_ws (before_dollar line))) ->
+  wrap_line W 5 (if first then "" else blanks 5) (blanks 5) line = WOk out ->
+  data_tokens out = data_tokens [(if first then "" else blanks 5) ++ line] /\
+  noblank (comment_text out) = noblank (comment_text [(if first then "" else blanks 5) ++ line]).
+Proof.
+  intros W first line out HW Hp Hfit H. rewrite (wrap_line_plain _ _ _ _ _ Hp) in H.
+  set (ii := if first then "" else blanks 5) in *.
+  destruct (Nat.leb (slen ii + slen line) W) eqn:Efit.
+  - (* the line fits: nothing depends on the comment test *)
+    unfold wrap_line_chunks in H. cbn [l_text l_chunks plain_line] in H. rewrite Efit in H.
+    apply Nat.leb_le in Efit. destruct (split_ws_spec line) as (b & _ & Hcat).
+    destruct line as [|a r] eqn:El.
+    + cbn in H. apply WOk_inj in H. subst out. rewrite app_nil_r_s.
+      unfold data_tokens, comment_text, line_tokens, line_comment. cbn [map List.concat String.concat].
+      unfold ii. destruct first; split; reflexivity.
+    + rewrite <- El in *. rewrite wrap_identity in H.
+      * apply WOk_inj in H. rewrite Hcat in H. subst out. split; reflexivity.
+      * apply split_ws_nonnil. rewrite El. discriminate.
+      * apply split_ws_chunks_nonempty.
+      * rewrite Hcat. exact Efit.
+  - apply Nat.leb_gt in Efit.
+    assert (Hpw : plain_text (ii ++ line) = true).
+    { unfold ii. destruct first; [exact Hp|]. simpl. exact Hp. }
+    assert (Hlw : 7 <= slen (ii ++ line)) by (rewrite slen_app; lia).
+    apply (wrap_line_chunks_meaning W 5 first line out); try lia; auto.
+    fold ii. apply comment_test_agrees; assumption.
+Qed.
+
+(* the bound 11 < W is needed: with W = 9 a data word "c" is left alone on a line and becomes a comment line *)
+Lemma wrap_line_meaning_needs_wide_lines :
   exists W line out,
-    11 < W /\ wrap_line W "" (blanks 5) (plain_line line) = WOk out /\
-    is_comment line = true /\ mcnp_comment_line line = false /\
+    5 + 2 < W /\ plain_text line = true /\
     Forall (fun c => slen c <= W - 5) (split_ws (before_dollar line)) /\
-    data_tokens out <> data_tokens [line].
-Proof.
-  exists 20, "          c 1 2 3 4 5 6 7 8", ["          c 1 2 3 4 "; "c 5 6 7 8"].
-  split; [lia|]. split; [vm_compute; reflexivity|]. split; [reflexivity|]. split; [reflexivity|].
-  split; [vm_compute; repeat (constructor; [lia|]); constructor | vm_compute; discriminate].
-Qed.
-
-(* (b) chunks that are not the blank-separated runs: textwrap's chunker splits "be-met.40t" after the hyphen *)
-Lemma wrap_line_meaning_refuted_hyphen :
-  exists W l out,
-    11 < W /\ String.concat "" (l_chunks l) = l_text l /\ is_comment (l_text l) = false /\
-    mcnp_comment_line (l_text l) = false /\
-    Forall (fun c => slen c <= W - 5) (l_chunks l) /\
-    wrap_line W "" (blanks 5) l = WOk out /\
-    data_tokens out <> data_tokens [l_text l].
-Proof.
-  exists 20, (SrcLine "mt1 lwtr.10t be-met.40t" ["mt1"; " "; "lwtr.10t"; " "; "be-"; "met.40t"] [] []),
-    ["mt1 lwtr.10t be-"; "     met.40t"].
-  split; [lia|]. split; [reflexivity|]. split; [reflexivity|]. split; [reflexivity|].
-  split; [vm_compute; repeat (constructor; [lia|]); constructor|].
-  split; [vm_compute; reflexivity | vm_compute; discriminate].
-Qed.
-
-(* (c) a tab: the raw line fits, the text with the tab expanded does not, and the '$' comment is wrapped as data *)
-Definition tab_line : string := "1" ++ String tab_char (String tab_char "2 $ aa bb cc").
-Lemma wrap_line_meaning_refuted_tab :
-  exists W l out,
-    11 < W /\ String.concat "" (l_chunks l) = munge (l_text l) /\ is_comment (l_text l) = false /\
-    wrap_line W "" (blanks 5) l = WOk out /\
-    data_tokens out <> data_tokens [munge (l_text l)].
-Proof.
-  exists 20, (SrcLine tab_line (split_ws (munge tab_line)) (split_ws (munge (before_dollar tab_line)))
-                      (split_ws (munge (from_dollar tab_line)))),
-    ["1               2 $ "; "     aa bb cc"].
-  split; [lia|]. split; [vm_compute; reflexivity|]. split; [reflexivity|].
-  split; [vm_compute; reflexivity | vm_compute; discriminate].
-Qed.
-
-(* (d) the bound 11 < W is needed: with W = 9 a data word "c" is left alone on a line and becomes a comment line *)
-Lemma wrap_line_meaning_refuted_narrow :
-  exists W line out,
-    5 + 2 < W /\ is_comment line = mcnp_comment_line line /\
-    Forall (fun c => slen c <= W - 5) (split_ws (before_dollar line)) /\
-    wrap_line W "" (blanks 5) (plain_line line) = WOk out /\
+    wrap_line W 5 "" (blanks 5) line = WOk out /\
     data_tokens out <> data_tokens [line].
 Proof.
   exists 9, "   c$ a b c d", ["   c"; "     $ a "; "     $ b "; "     $ c "; "     $ d"].
@@ -1754,10 +1875,33 @@ Proof.
   split; [vm_compute; reflexivity | vm_compute; discriminate].
 Qed.
 
-Lemma wrap_line_identity : forall W ii si line,
-  line <> "" -> slen ii + slen line <= W -> wrap_line W ii si (plain_line line) = WOk [ii ++ line].
+(* the bound on the runs of the data part is needed: a word longer than a continuation line is cut *)
+Lemma wrap_line_meaning_needs_writable_words :
+  exists W line out,
+    11 < W /\ plain_text line = true /\ wrap_line W 5 "" (blanks 5) line = WOk out /\
+    data_tokens out <> data_tokens [line].
 Proof.
-  intros W ii si line Hne Hfit. unfold wrap_line. cbn [l_text l_chunks plain_line].
+  exists 12, "1 abcdefghijklmno", ["1 abcdefghij"; "     klmno"].
+  split; [lia|]. split; [reflexivity|]. split; [vm_compute; reflexivity | vm_compute; discriminate].
+Qed.
+
+(* tabs: the raw line is expanded first, and the theorem applies to the expanded line *)
+Lemma wrap_line_tabs : forall W cont ii si line,
+  plain_text (expandtabs line) = true ->
+  wrap_line W cont ii si line = wrap_line W cont ii si (expandtabs line).
+Proof.
+  intros W cont ii si line H. unfold wrap_line.
+  assert (E : expandtabs (expandtabs line) = expandtabs line)
+    by (unfold expandtabs at 1; apply expandtabs_aux_plain; exact H).
+  rewrite E. reflexivity.
+Qed.
+
+Lemma wrap_line_identity : forall W cont ii si line,
+  plain_text line = true -> line <> "" -> slen ii + slen line <= W ->
+  wrap_line W cont ii si line = WOk [ii ++ line].
+Proof.
+  intros W cont ii si line Hp Hne Hfit. rewrite (wrap_line_plain _ _ _ _ _ Hp).
+  unfold wrap_line_chunks. cbn [l_text l_chunks plain_line].
   apply Nat.leb_le in Hfit. rewrite Hfit. apply Nat.leb_le in Hfit.
   destruct (split_ws_spec line) as (b & _ & Hcat).
   rewrite wrap_identity.
@@ -1769,21 +1913,30 @@ Qed.
 
 Lemma wrap_line_meaning_example :
   let line := "1 2 3 $ a long comment that is wrapped" in
-  5 <= 5 /\ 5 + 2 < 20 /\ 11 < 20 /\ is_comment line = mcnp_comment_line ("" ++ line) /\
+  11 < 20 /\ plain_text line = true /\
   Forall (fun c => slen c <= 20 - 5) (split_ws (before_dollar line)) /\
-  wrap_line 20 "" (blanks 5) (plain_line line) =
+  wrap_line 20 5 "" (blanks 5) line =
     WOk ["1 2 3 $ a long "; "     $ comment that "; "     $ is wrapped"].
 Proof.
-  cbn zeta. split; [lia|]. split; [lia|]. split; [lia|]. split; [reflexivity|].
+  cbn zeta. split; [lia|]. split; [reflexivity|].
   split; [vm_compute; repeat (constructor; [lia|]); constructor | vm_compute; reflexivity].
 Qed.
 
 Lemma wrap_line_comment_example :
   let line := "c a comment line that is longer than twenty columns" in
-  is_comment line = mcnp_comment_line ("" ++ line) /\ is_comment line = true /\
-  wrap_line 20 "" (blanks 5) (plain_line line) =
+  plain_text line = true /\ mcnp_comment_line line = true /\
+  wrap_line 20 5 "" (blanks 5) line =
     WOk ["c a comment line "; "c that is longer "; "c than twenty "; "c columns"].
 Proof. cbn zeta. split; [reflexivity|]. split; [reflexivity | vm_compute; reflexivity]. Qed.
+
+(* what was refuted before /repo commits 6283f05 and c3da1f2 now comes out right *)
+Lemma wrap_line_repaired_examples :
+  wrap_line 20 5 "" (blanks 5) (blanks 22 ++ "$ x y") = WOk ["     $ x y"] /\
+  wrap_line 20 5 "" (blanks 5) "          c 1 2 3 4 5 6 7 8" = WOk ["          c 1 2 3 4 "; "     5 6 7 8"] /\
+  wrap_line 20 5 "" (blanks 5) "mt1 lwtr.10t be-met.40t" = WOk ["mt1 lwtr.10t "; "     be-met.40t"] /\
+  wrap_line 20 5 "" (blanks 5) ("1" ++ String tab_char (String tab_char "2 $ aa bb cc")) =
+    WOk ["1               2 "; "     $ aa bb cc"].
+Proof. repeat split; vm_compute; reflexivity. Qed.
 
 (* ------------------------------------------------------------------ *)
 (* 9. non-vacuity *)
